@@ -50,15 +50,18 @@ func (w *rw) reloads() int { return strings.Count(w.buf.String(), "data: reload"
 func (w *rw) pings() int   { return strings.Count(w.buf.String(), "data: ping") }
 
 type scenario struct {
-	name      string
-	clients   int  // connected in phase A
-	sends     int  // broadcasts back to back
-	cancel    int  // clients 0..cancel-1 are cancelled concurrently with the broadcast
-	stalled   bool // client `cancel` (first staying one) never reads its reload until phase C
-	late      bool // one more client connects concurrently with the broadcast
-	churn     bool // before the broadcast: client0 disconnects, then a new client connects (sequentially)
-	extraPing int
-	proxyLog  string // "" = the sse handler directly; "info" / "debug" = through the live-reload proxy's handler with that log level
+	name       string
+	clients    int  // connected in phase A
+	sends      int  // broadcasts back to back
+	cancel     int  // clients 0..cancel-1 are cancelled concurrently with the broadcast
+	stalled    bool // client `cancel` (first staying one) never reads its reload until phase C
+	late       bool // one more client connects concurrently with the broadcast
+	churn      bool // before the broadcast: client0 disconnects, then a new client connects (sequentially)
+	extraPing  int
+	stopAfterB bool   // the execution ends after the broadcast phase (the 2^n orders in which n parked deliveries would drain afterwards say nothing about Send)
+	maxBound   int    // > 0: explore this scenario with at most this many deviations (long scenarios); -1 = none
+	post       bool   // broadcasts are triggered by POST /_templ/reload/events through the proxy handler, whose request context is cancelled when the handler returns (as net/http does)
+	proxyLog   string // "" = the sse handler directly; "info" / "debug" = through the live-reload proxy's handler with that log level
 }
 
 // broadcaster is the handler under test: sse.Handler itself, or the proxy handler that mounts it.
@@ -72,6 +75,16 @@ type viaProxy struct{ p *proxy.Handler }
 func (v viaProxy) ServeHTTP(w http.ResponseWriter, r *http.Request) { v.p.ServeHTTP(w, r) }
 func (v viaProxy) Send(t, d string)                                 { v.p.SendSSE(t, d) }
 
+// viaPost triggers the broadcast the way `templ generate --notify-proxy` does.
+type viaPost struct{ viaProxy }
+
+func (v viaPost) Send(t, d string) {
+	ctx, cancel := context.WithCancel(context.Background())
+	req := httptest.NewRequest(http.MethodPost, "/_templ/reload/events", nil).WithContext(ctx)
+	v.p.ServeHTTP(httptest.NewRecorder(), req)
+	cancel() // the server cancels a request's context when its handler returns
+}
+
 func (sc scenario) build() (func(), func(*vsched.Exec) string, func() string) {
 	var msg string
 	var key func() string
@@ -83,7 +96,11 @@ func (sc scenario) build() (func(), func(*vsched.Exec) string, func() string) {
 				lvl = slog.LevelDebug
 			}
 			target, _ := url.Parse("http://127.0.0.1:1")
-			h = viaProxy{proxy.New(slog.New(slog.NewTextHandler(io.Discard, &slog.HandlerOptions{Level: lvl})), "127.0.0.1", 0, target)}
+			vp := viaProxy{proxy.New(slog.New(slog.NewTextHandler(io.Discard, &slog.HandlerOptions{Level: lvl})), "127.0.0.1", 0, target)}
+			h = vp
+			if sc.post {
+				h = viaPost{vp}
+			}
 		}
 		n := sc.clients
 		total := n
@@ -192,6 +209,9 @@ func (sc scenario) build() (func(), func(*vsched.Exec) string, func() string) {
 				return
 			}
 		}
+		if sc.stopAfterB {
+			return
+		}
 		// phase C: release the stalled reader, disconnect everyone
 		released = true
 		phase = "C"
@@ -272,6 +292,20 @@ func (w *safeRW) count(s string) int {
 	return strings.Count(w.buf.String(), s)
 }
 
+// stallRW blocks inside the Write of its first reload event until released.
+type stallRW struct {
+	safeRW
+	release chan struct{}
+	once    sync.Once
+}
+
+func (w *stallRW) Write(p []byte) (int, error) {
+	if strings.Contains(string(p), "reload") {
+		w.once.Do(func() { <-w.release })
+	}
+	return w.safeRW.Write(p)
+}
+
 // raceMode: stable clients, clients that keep connecting and leaving, and back-to-back broadcasts on real
 // goroutines. Only the race detector's verdict (and a crash of the process) is used from this pass.
 func raceMode() {
@@ -299,6 +333,18 @@ func raceMode() {
 	}
 	for _, w := range ws {
 		waitPing(w)
+	}
+	// one more client that stops reading at its first reload event and stays stalled during all broadcasts: more
+	// events pile up for it than any queue holds, and Send must still return every time
+	release := make(chan struct{})
+	stalled := &stallRW{safeRW: safeRW{h: http.Header{}}, release: release}
+	wg.Add(1)
+	go func() {
+		defer wg.Done()
+		h.ServeHTTP(stalled, httptest.NewRequest(http.MethodGet, "/", nil).WithContext(ctxAll))
+	}()
+	for stalled.count("data: ping") < 1 {
+		time.Sleep(50 * time.Microsecond)
 	}
 	stop := make(chan struct{})
 	var churnWG sync.WaitGroup
@@ -344,13 +390,14 @@ func raceMode() {
 		time.Sleep(time.Millisecond)
 	}
 	all := complete()
+	close(release)
 	cancelAll()
 	wg.Wait()
 	total := 0
 	for _, n := range churned {
 		total += n
 	}
-	b, _ := json.Marshal(map[string]any{"stable_clients": stable, "churning_goroutines": churners, "broadcasts": sends, "connect_disconnect_cycles": total, "stable_clients_received_everything": all})
+	b, _ := json.Marshal(map[string]any{"stable_clients": stable, "churning_goroutines": churners, "broadcasts": sends, "connect_disconnect_cycles": total, "stable_clients_received_everything": all, "stalled_client_during_all_broadcasts": true})
 	os.WriteFile(filepath.Join(os.Getenv("VERIF_SCRATCH"), "race.json"), b, 0o644)
 }
 
@@ -371,6 +418,7 @@ func main() {
 		{name: "churn: 2 clients, client0 leaves, a new client connects, then 1 broadcast", clients: 2, sends: 1, cancel: 0, churn: true},
 		{name: "through the proxy handler (info logging): 2 clients, 1 broadcast, client0 disconnects", clients: 2, sends: 1, cancel: 1, proxyLog: "info"},
 		{name: "through the proxy handler (debug logging): 2 clients, 1 broadcast, client0 disconnects", clients: 2, sends: 1, cancel: 1, proxyLog: "debug"},
+		{name: "broadcasts triggered by POST through the proxy handler: 2 clients, 2 broadcasts back to back", clients: 2, sends: 2, cancel: 0, proxyLog: "info", post: true},
 	}
 	if run.Thorough() {
 		scenarios = append(scenarios,
@@ -412,7 +460,13 @@ func main() {
 	outcomes := map[string]int{}
 	var per []map[string]any
 	for _, sc := range scenarios {
-		st := vsched.Explore(vsched.ExploreConfig{Opts: vsched.Options{MaxSteps: 4000}, Bound: bound, Deadline: deadline, StateCaching: os.Getenv("VERIF_NO_CACHE") == "", MaxExecutions: run.Pick(400000, 5000000)}, sc.build)
+		b := bound
+		if sc.maxBound > 0 && sc.maxBound < b {
+			b = sc.maxBound
+		} else if sc.maxBound < 0 {
+			b = 0
+		}
+		st := vsched.Explore(vsched.ExploreConfig{Opts: vsched.Options{MaxSteps: 20000}, Bound: b, Deadline: deadline, StateCaching: os.Getenv("VERIF_NO_CACHE") == "", MaxExecutions: run.Pick(400000, 5000000)}, sc.build)
 		if st.Diverged != "" {
 			vlib.Fatal("scenario %q: %s", sc.name, st.Diverged)
 		}
